@@ -210,9 +210,7 @@ def run(repo, rep, tier):
             if isinstance(n, ast.Return) and n.value is not None:
                 # the whole attribute dict is handed on
                 for x in ast.walk(n.value):
-                    if isinstance(x, ast.Call) and \
-                            dotted(x.func) == 'attrs' or \
-                            isinstance(x, ast.Name) and x.id == 'attrl':
+                    if X.is_attr_dict(x, f):
                         whole = True
             if isinstance(n, ast.For) and 'attrs(' in norm(n.iter):
                 whole = True
@@ -374,7 +372,7 @@ def run(repo, rep, tier):
             if isinstance(c, ast.Call) and isinstance(c.func, ast.Attribute) \
                     and c.func.attr == 'get' and len(c.args) == 2 and \
                     const_str(c.args[0]) is not None and \
-                    norm(c.func.value) in ('attrl', 'attrs(tup_tree)'):
+                    X.is_attr_dict(c.func.value, f):
                 a = const_str(c.args[0])
                 dd = D.attlists.get(e, {}).get(a)
                 if dd is None:
